@@ -402,6 +402,12 @@ func dwRun(r *ev.Rec, t *testing.T, scs []dwScenario, quick, thorough time.Durat
 		}
 		return
 	}
+	mine := 0
+	for i := range scs {
+		if i%sn == si {
+			mine++
+		}
+	}
 	for i := range scs {
 		if i%sn != si {
 			continue
@@ -411,7 +417,14 @@ func dwRun(r *ev.Rec, t *testing.T, scs []dwScenario, quick, thorough time.Durat
 		if steps == 0 {
 			steps = 2500
 		}
-		cfg := vrt.Config{Name: sc.Name, Budget: sc.Budget, MaxSteps: steps, Prune: true, Deadline: dl, Delay: true}
+		// time slicing: an equal share of the remaining budget per scenario of this shard, unused time is passed on
+		slice := time.Until(dl) / time.Duration(max(mine, 1))
+		mine--
+		sdl := time.Now().Add(slice)
+		if sdl.After(dl) || mine == 0 {
+			sdl = dl
+		}
+		cfg := vrt.Config{Name: sc.Name, Budget: sc.Budget, MaxSteps: steps, Prune: true, Deadline: sdl, Delay: true}
 		res := vrt.Explore(cfg, sc.Body)
 		dwReport(r, cfg, res, sc.Body, t)
 		info := map[string]any{"scenario": sc.Name, "budget": sc.Budget, "executions": res.Execs, "pruned": res.Pruned, "truncated": res.Truncated, "states": res.States,
@@ -425,6 +438,9 @@ func dwRun(r *ev.Rec, t *testing.T, scs []dwScenario, quick, thorough time.Durat
 		r.Case(fmt.Sprintf("%s/%d", sc.Name, len(res.Outcomes)), info)
 		for o := range res.Outcomes {
 			r.Distinct(sc.Name + "|" + o)
+		}
+		if !res.Exhaustive {
+			r.NotExhaustive()
 		}
 		if time.Now().After(dl) {
 			r.NotExhaustive()
